@@ -154,7 +154,10 @@ func (e *env) runFirstAppends(cfg roundCfg, watchdog time.Duration, rep *hx.Repo
 	kv := st.kv
 	jitter := hx.NewRand(cfg.seed + uint64(cfg.g)*977 + uint64(cfg.m))
 	finished := hx.WithTimeout(watchdog, func() {
-		for i := 0; i < cfg.m && len(fails) == 0; i++ {
+		// the number of keys is a ceiling, the time is the budget: on a loaded machine the round stops
+		// early instead of running into the watchdog, which is there for a call that does not return
+		start := time.Now()
+		for i := 0; i < cfg.m && len(fails) == 0 && time.Since(start) < watchdog/3; i++ {
 			key := fmt.Sprintf("fresh%d", i)
 			res := make([]string, cfg.g)
 			// a spinning barrier releases the goroutines within nanoseconds of each other; a small
